@@ -9,6 +9,9 @@
 -/
 import OpmVerif.Proofs.FieldProps
 import OpmVerif.Proofs.FieldPropsIndep
+import OpmVerif.Proofs.FieldPropsOperR
+import OpmVerif.Proofs.FieldPropsReentry
+import OpmVerif.Proofs.FieldPropsStatus
 
 namespace OpmVerif.Props.C12
 open OpmVerif.FieldProps
@@ -120,37 +123,80 @@ theorem inactive_independence_per_operation {α : Type} [Scalar α] (K : Kernel 
     y[rank A g]? = y'[rank A' g]? :=
   indep_one_op K A A' sel L L' hs hs' src tgt hsrc htgt hAA y y' hy hy' g hg hg'
 
-/-- `inactive_independence` for whole programs of any length, implementation semantics: if the
-same program is accepted under two ACTNUMs `A` and `A'` (any two, not only `A ⊆ A'`), then at
-every global cell `g` that is active at the end of both runs every array holds the same value
-and status (cell `g` is found at active index `rank t.act g` resp. `rank t'.act g`).
+/-- **`inactive_independence` for whole programs of any length (OPERATER included), implementation
+semantics, STORES**: if the same program is accepted under two ACTNUMs `A` and `A'` (any two, not only
+`A ⊆ A'`), then the same arrays are stored in both final states and at every global cell `g` that is
+active at the end of both runs every stored array holds the same value and status (cell `g` is found at
+active index `rank t.act g` resp. `rank t'.act g`).
 
-Top-layer keywords (PORO, PERMX/Y/Z in GRID) are included: since fix 0679405ff the top layer is
-read from all cells of the box, active or not.
-
-`_partial` because of one hypothesis:
-* `P.NoOperR` — no OPERATER keyword.  OPERATER creates its source array only when the region has
-  an ACTIVE cell, so the SET of stored arrays depends on the ACTNUM and the conclusion as stated
-  here (equal stores) is false with it; the statement about *views* (stored array, or the freshly
-  initialised one when absent — which is what every reader of the store sees) is expected to
-  hold and is NOT proved.
-Full shape: view equality at `g` for every keyword, without `P.NoOperR`. -/
-theorem inactive_independence_partial {α : Type} [RealOps α] (D : Dims) (hD : DPos D) (T : Tables α)
-    (P : Prog α) (hP : P.NoOperR) (A A' : List Bool) (hA : A.length = D.size)
+Top-layer keywords (PORO, PERMX/Y/Z in GRID) are included: since fix 0679405ff the top layer is read
+from all cells of the box, active or not.  OPERATER is included: since fix bf5bceae1 it fetches (creates)
+its source array before it looks at the region, so the set of stored arrays no longer depends on the
+ACTNUM. -/
+theorem inactive_independence_stores {α : Type} [RealOps α] (D : Dims) (hD : DPos D) (T : Tables α)
+    (P : Prog α) (A A' : List Bool) (hA : A.length = D.size)
     (hA' : A'.length = D.size) (t t' : St α)
     (h : runProg .impl D T (initSt A) P = some t) (h' : runProg .impl D T (initSt A') P = some t')
     (g : Nat) (hg : g < D.size) (hact : isActive t.act g = true) (hact' : isActive t'.act g = true) :
     smap (fun x => cellAt x (rank t.act g)) t.dbls = smap (fun x => cellAt x (rank t'.act g)) t'.dbls ∧
     smap (fun x => cellAt x (rank t.act g)) t.ints = smap (fun x => cellAt x (rank t'.act g)) t'.ints :=
-  runProg_indep_impl D hD T P hP A A' hA hA' t t' h h' g hg hact hact'
+  runProg_indep_impl D hD T P A A' hA hA' t t' h h' g hg hact hact'
+
+/-- The statement of the earlier rounds (kept verbatim): the same with the hypothesis `P.NoOperR`, which
+is no longer needed — a corollary of `inactive_independence_stores`. -/
+theorem inactive_independence_partial {α : Type} [RealOps α] (D : Dims) (hD : DPos D) (T : Tables α)
+    (P : Prog α) (_hP : P.NoOperR) (A A' : List Bool) (hA : A.length = D.size)
+    (hA' : A'.length = D.size) (t t' : St α)
+    (h : runProg .impl D T (initSt A) P = some t) (h' : runProg .impl D T (initSt A') P = some t')
+    (g : Nat) (hg : g < D.size) (hact : isActive t.act g = true) (hact' : isActive t'.act g = true) :
+    smap (fun x => cellAt x (rank t.act g)) t.dbls = smap (fun x => cellAt x (rank t'.act g)) t'.dbls ∧
+    smap (fun x => cellAt x (rank t.act g)) t.ints = smap (fun x => cellAt x (rank t'.act g)) t'.ints :=
+  runProg_indep_impl D hD T P A A' hA hA' t t' h h' g hg hact hact'
+
+/-- **`inactive_independence`, full shape: whole programs of any length WITH OPERATER**, any two ACTNUMs.
+If the same program is accepted under `A` and `A'`, then at every global cell `g` active at the end of
+both runs, what `init_get<double>(kw)` / `init_get<int>(kw)` returns (the stored array, or the freshly
+initialised one when the keyword has not been stored — the only way any reader, including
+`get_double`/`get_int`, sees the store) has the same value and status, for every keyword of the tables.
+(Proved in round 3 against the code before bf5bceae1, where the stores themselves could differ; with the
+fixed code the stores agree — `inactive_independence_stores` — and this statement also follows from that.)
+
+`TablesOK T` is a hypothesis on the keyword tables only: no keyword called `__MULT__…`, every double
+keyword declared once, ACTNUM an integer keyword with default 1.  It is decidable
+(`tables_hypothesis_decidable`) and the driver evaluates it on the tables read from the real
+`keyword_info` on every correspondence case. -/
+theorem inactive_independence {α : Type} [RealOps α] (D : Dims) (hD : DPos D) (T : Tables α) (hT : TablesOK T)
+    (P : Prog α) (A A' : List Bool) (hA : A.length = D.size) (hA' : A'.length = D.size) (t t' : St α)
+    (h : runProg .impl D T (initSt A) P = some t) (h' : runProg .impl D T (initSt A') P = some t')
+    (g : Nat) (hg : g < D.size) (hact : isActive t.act g = true) (hact' : isActive t'.act g = true) :
+    (∀ kw info, sget T.dbl kw = some info →
+      cellAt (getD .impl D t kw info).2 (rank t.act g) = cellAt (getD .impl D t' kw info).2 (rank t'.act g)) ∧
+    (∀ kw init, sget T.int kw = some init →
+      cellAt (getI .impl D t kw init).2 (rank t.act g) = cellAt (getI .impl D t' kw init).2 (rank t'.act g)) :=
+  runProg_indep_impl_views D hD T hT P A A' hA hA' t t' h h' g hg hact hact'
+
+/-- The hypothesis of `inactive_independence` on the tables follows from the Boolean check
+`tablesOkB` the driver runs on the real tables of every case. -/
+theorem tables_hypothesis_decidable {α : Type} [RealOps α] (T : Tables α) (h : tablesOkB T = true) : TablesOK T :=
+  tablesOK_of_check T h
+
+/-- Monotonicity of the one-cell semantics in its start state: if the projection of the start state is
+below `a0` (`VLe`: same stored cells; extra arrays hold the freshly initialised cell), the one-cell run
+from `a0` is accepted and stays above the projection of the accepted reference run. -/
+theorem active_cell_view_evolves_alone {α : Type} [RealOps α] (g : Nat) (D : Dims) (hD : DPos D) (T : Tables α)
+    (hT : TablesOK T) (hg : g < D.size) (s0 : St α) (hw : WF D s0) (a0 : St1 α) (hv : VLe T (proj g s0) a0)
+    (P : Prog α) (s : St α) (h : runProg .ref D T s0 P = some s) (hact : isActive s.act g = true) :
+    ∃ z, runProg1 g D T a0 P = some z ∧ VLe T (proj g s) z :=
+  runProg_sim g D hD T hT hg s0 hw a0 hv P s h hact
 
 /-- The reason behind it: in an accepted reference run the content of an active cell evolves by
-a one-cell semantics (`runProg1`) that sees neither the ACTNUM nor any other cell. -/
+a one-cell semantics (`runProg1`) that sees neither the ACTNUM nor any other cell — every keyword,
+OPERATER included (hypothesis `P.NoOperR` of the earlier rounds dropped). -/
 theorem active_cell_evolves_alone {α : Type} [RealOps α] (g : Nat) (D : Dims) (hD : DPos D) (T : Tables α)
-    (hg : g < D.size) (s0 : St α) (hw : WF D s0) (P : Prog α) (hP : P.NoOperR) (s : St α)
+    (hg : g < D.size) (s0 : St α) (hw : WF D s0) (P : Prog α) (s : St α)
     (h : runProg .ref D T s0 P = some s) (hact : isActive s.act g = true) :
     runProg1 g D T (proj g s0) P = some (proj g s) :=
-  runProg_proj g D hD T hg s0 hw P hP s h hact
+  runProg_proj g D hD T hg s0 hw P s h hact
 
 /-! ### The semantics the code has (pinned as the reference) -/
 
@@ -187,6 +233,115 @@ theorem deck_default_only_fills_uninitialised {α : Type} [Scalar α] (deck : Ar
     ((cellAt deck d).st = .emptyDefault → (assignKernel deck).upd d s t = t) :=
   ⟨deck_default_fills_only_uninit deck d s t, deck_value_overwrites deck d s t, empty_default_ignored deck d s t⟩
 
+/-- **Sequential application, cell by cell**: one loop of the implementation over an index list that
+meets its specification applies the kernel exactly ONCE to every listed active cell and writes no
+other cell of the array. -/
+theorem loop_touches_listed_cells_once {α : Type} [Scalar α] (K : Kernel α) (A : List Bool)
+    (sel : Nat → Option Nat) (L : List Idx) (hs : IdxSpec A sel L) (src tgt y : Arr α)
+    (hl : tgt.length = nactive A) (h : implApply K L src tgt = some y) :
+    (∀ e ∈ L, cellAt y e.a = K.upd e.d (cellAt src e.a) (cellAt tgt e.a)) ∧
+    (∀ a, (∀ e ∈ L, e.a ≠ a) → cellAt y a = cellAt tgt a) :=
+  ⟨fun e he => implApply_inside K L hs.nodup src tgt y h e he (by
+      obtain ⟨ha, _, hr⟩ := (hs.mem e).1 he
+      rw [hl, hr]; exact rank_lt_nactive A e.g ha),
+   fun a ha => implApply_outside K L src tgt y h a ha⟩
+
+/-- **Keyword re-entry with `n*` defaults**: assigning an array again with a data keyword all of whose
+entries are defaulted (with or without keyword default), in any box under any ACTNUM, leaves every
+initialised cell of the array unchanged (value AND status); a still uninitialised cell of the box takes
+the entry when it carries a keyword default. -/
+theorem reentry_with_defaults {α : Type} [Scalar α] (A : List Bool) (sel : Nat → Option Nat) (L : List Idx)
+    (hs : IdxSpec A sel L) (deck : Arr α) (hd : ∀ c ∈ deck, c.st ≠ .deckValue) (tgt y : Arr α)
+    (hl : tgt.length = nactive A) (h : implApply (assignKernel deck) L tgt tgt = some y) :
+    (∀ a, (cellAt tgt a).st ≠ .uninit → cellAt y a = cellAt tgt a) ∧
+    (∀ e ∈ L, (cellAt tgt e.a).st = .uninit → (cellAt deck e.d).st = .validDefault →
+      cellAt y e.a = cellAt deck e.d) :=
+  reentry_defaults deck hd L hs.nodup tgt y (fun e he => by
+    obtain ⟨ha, _, hr⟩ := (hs.mem e).1 he
+    rw [hl, hr]; exact rank_lt_nactive A e.g ha) h
+
+/-! ### `value_status` as a state machine, box carry-over -/
+
+/-- **Status transitions of one cell** (`StatusStep a b`: a cell that has a value never loses it, and
+`empty_default` is never produced): every element kernel — EQUALS/ADD/MULTIPLY/MINVALUE/MAXVALUE and the
+region forms, data keywords, COPY/COPYREG, OPERATE/OPERATER — moves the status of the target cell only
+along `StatusStep`. -/
+theorem status_transitions {α : Type} [Scalar α] (d : Nat) (s t : Cell α) :
+    (∀ op x, StatusStep t.st ((scalarKernel op x).upd d s t).st) ∧
+    (∀ deck, StatusStep t.st ((assignKernel deck).upd d s t).st) ∧
+    StatusStep t.st ((copyKernel : Kernel α).upd d s t).st ∧
+    (∀ fn chk, StatusStep t.st ((operateKernel fn chk).upd d s t).st) :=
+  kernel_status_step d s t
+
+/-- A `deck_value` cell stays `deck_value` under every kernel except OPERATE (which copies the status of
+its SOURCE cell) … -/
+theorem deck_value_is_sticky {α : Type} [Scalar α] (d : Nat) (s t : Cell α) (h : t.st = .deckValue) :
+    (∀ op x, ((scalarKernel op x).upd d s t).st = .deckValue) ∧
+    (∀ deck, ((assignKernel deck).upd d s t).st = .deckValue) ∧
+    ((copyKernel : Kernel α).upd d s t).st = .deckValue :=
+  deck_value_sticky d s t h
+
+/-- … and `valid_default` arises from a data keyword only in an uninitialised cell hit by an entry that
+carries a keyword default. -/
+theorem valid_default_from_assignment {α : Type} [Scalar α] (deck : Arr α) (d : Nat) (s t : Cell α)
+    (h : ((assignKernel deck).upd d s t).st = .validDefault) :
+    t.st = .validDefault ∨ (t.st = .uninit ∧ (cellAt deck d).st = .validDefault) :=
+  valid_default_origin_assign deck d s t h
+
+/-- "Distribute top layer" at one cell: only an uninitialised cell is written, it becomes
+`valid_default` with the top-layer value; without a top-layer value nothing happens.  And the whole step
+is skipped once the array is fully defined. -/
+theorem toplayer_cell_and_guard {α : Type} [RealOps α] (tv : Option α) (v : α) (c : Cell α)
+    (m : Mode) (D : Dims) (A : List Bool) (sec : Section) (info : DInfo α) (b : Box) (deck y : Arr α) :
+    ((c.st ≠ .uninit → topCell tv c = c) ∧ (c.st = .uninit → topCell (some v) c = ⟨.validDefault, v⟩) ∧
+      topCell (none : Option α) c = c ∧ StatusStep c.st (topCell tv c).st) ∧
+    (validArr m A y = true → topStep m D A sec info b deck y = y) ∧
+    (¬ (sec = .grid ∧ info.top = true) → topStep m D A sec info b deck y = y) :=
+  ⟨topCell_spec tv v c, topStep_valid m D A sec info b deck y, topStep_noop m D A sec info b deck y⟩
+
+/-- **Invariant of every accepted run, either semantics, programs of any length**: no stored array ever
+holds an `empty_default` cell … -/
+theorem no_empty_default_stored {α : Type} [RealOps α] (m : Mode) (D : Dims) (T : Tables α) (A : List Bool)
+    (P : Prog α) (t : St α) (h : runProg m D T (initSt A) P = some t) : NoEmpty t :=
+  runProg_noEmpty_any m D T A P t h
+
+/-- … hence `FieldData::valid()` of a stored array is exactly "no uninitialised cell". -/
+theorem valid_iff_fully_initialised {α : Type} [RealOps α] (m : Mode) (D : Dims) (T : Tables α) (A : List Bool)
+    (P : Prog α) (t : St α) (h : runProg m D T (initSt A) P = some t) (kw : String) (x : Arr α)
+    (hx : sget t.dbls kw = some x) :
+    validArr .impl t.act x = x.all (fun c => decide (c.st ≠ .uninit)) :=
+  valid_iff_no_uninit_run m D T A P t h kw x hx
+
+/-- **No keyword un-defines a cell**: through any keyword (all its records) every stored double array is
+still stored and every cell that had a value still has one. -/
+theorem defined_cells_stay_defined {α : Type} [RealOps α] (D : Dims) (T : Tables α) (sec : Section)
+    (p : St α × Box) (k : Kw α) (q : St α × Box) (h : kwStep .ref D T sec p k = some q)
+    (name : String) (x : Arr α) (hx : sget p.1.dbls name = some x) :
+    ∃ y, sget q.1.dbls name = some y ∧
+      ∀ g, (cellAt x g).st.hasValue = true → (cellAt y g).st.hasValue = true :=
+  kwStep_hasValue_mono D T sec p k q h name x hx
+
+/-- **Box carry-over inside a keyword**: a record with all six box items defaulted reuses the box of the
+PREVIOUS record; any other record's box does not depend on the current box at all (defaulted items mean
+the full grid extent); each record hands its box to the next record. -/
+theorem record_box_carry_over {α : Type} [RealOps α] (m : Mode) (D : Dims) (T : Tables α) (sec : Section)
+    (op : ScalarOp) (b b' : Box) (r : BoxItems) (sb q : St α × Box) (rec : ScalarRec α) :
+    (r.allDefault = true → Box.update D b r = some b) ∧
+    (r.allDefault = false → Box.update D b r = Box.update D b' r) ∧
+    (scalarRec m D T sec op sb rec = some q → Box.update D sb.2 rec.box = some q.2) :=
+  ⟨update_allDefault D b r, update_indep_of_current D b b' r, scalarRec_box m D T sec op sb rec q⟩
+
+/-- **Box carry-over across keywords**: record boxes never leak out of a keyword — after any keyword
+list the section box is `boxTrack`, which only BOX (update) and ENDBOX (global box) move; and every
+section starts from the global box. -/
+theorem section_box_carry_over {α : Type} [RealOps α] (m : Mode) (D : Dims) (T : Tables α) (sec : Section)
+    (ks : List (Kw α)) (p q : St α × Box) (s : St α) :
+    (foldRecs (kwStep m D T sec) p ks = some q → q.2 = boxTrack D p.2 ks) ∧
+    scanSection m D T sec s ks =
+      (foldRecs (kwStep m D T sec) (s, Box.global D) ks).map
+        (fun r => if sec = .edit then applyMultipliers m D T r.1 else r.1) :=
+  ⟨foldRecs_kwStep_box m D T sec ks p q, scanSection_fresh_box m D T sec s ks⟩
+
 /-! ### Non-vacuity: a 3×2×2 grid with interior inactive cells, a proper sub-box, and a
 three-section program run under both semantics. -/
 
@@ -202,6 +357,16 @@ example : indexList sampleD sampleA sampleB =
 example : [MgrOp.setInput 1 2 0 1 0 1, .setKeyword 1 1 1 1 0 0, .endKeyword].foldl
     (fun (s : Option BoxMgr) op => s.bind fun x => (x.step sampleD op)) (some ⟨none, none⟩) =
     some ⟨some sampleB, none⟩ := by decide
+-- re-entry: an array over the 8 active cells, cells 1 and 3 initialised, re-entered in `sampleB` with defaults
+example : (∀ c ∈ ([⟨.validDefault, 7⟩, ⟨.emptyDefault, 0⟩, ⟨.validDefault, 7⟩, ⟨.validDefault, 7⟩,
+    ⟨.validDefault, 7⟩, ⟨.validDefault, 7⟩, ⟨.validDefault, 7⟩, ⟨.validDefault, 7⟩] : Arr Int), c.st ≠ .deckValue) := by decide
+example : implApply (assignKernel ([⟨.validDefault, 7⟩, ⟨.emptyDefault, 0⟩, ⟨.validDefault, 7⟩, ⟨.validDefault, 7⟩,
+      ⟨.validDefault, 7⟩, ⟨.validDefault, 7⟩, ⟨.validDefault, 7⟩, ⟨.validDefault, 7⟩] : Arr Int))
+    (indexList sampleD sampleA sampleB)
+    [blank, ⟨.deckValue, 5⟩, blank, ⟨.validDefault, 2⟩, blank, blank, blank, blank]
+    [blank, ⟨.deckValue, 5⟩, blank, ⟨.validDefault, 2⟩, blank, blank, blank, blank] =
+    some [blank, ⟨.deckValue, 5⟩, blank, ⟨.validDefault, 2⟩, ⟨.validDefault, 7⟩, ⟨.validDefault, 7⟩, blank, ⟨.validDefault, 7⟩] := by
+  decide
 example : compressLoop sampleA 0 0 (List.range 12) = [0, 2, 3, 4, 7, 8, 9, 11] := by decide
 example : regionIndexLoop [⟨.deckValue, 5⟩, ⟨.deckValue, 7⟩, ⟨.deckValue, 5⟩] 5 [true, false, true, true] 0 0 =
     [⟨0, 0, 0⟩, ⟨3, 2, 3⟩] := by decide
@@ -258,5 +423,42 @@ example :
 -- the hypothesis of `inactive_independence_partial` is satisfiable: the sample program (with a top keyword)
 example : sampleP.NoOperR := by
   simp [Prog.NoOperR, sampleP, Kw.noOperR]
+
+/-! ### OPERATER (code as fixed by bf5bceae1): 1×1×2 grid, OPERNUM = 1, 2; `OPERATER NTG 2 MULTX MULTZ 3`
+(region 2 of OPERNUM, source MULTZ not stored yet).  With both cells active the region has an active
+cell and the record is applied; with the lower cell inactive the record is skipped — but MULTZ is stored
+in BOTH runs (before the fix it was stored only in the first), and the upper cell (active in both) shows
+NTG = default 1 and MULTZ = default 1 in both. -/
+
+def opD : Dims := ⟨1, 1, 2⟩
+def opT : Tables Int :=
+  ⟨[("NTG", ⟨some 1, false, false, false, 1, 0, false⟩), ("MULTZ", ⟨some 1, true, false, true, 1, 0, false⟩)],
+   [("ACTNUM", some 1), ("OPERNUM", some 1)]⟩
+def opP : Prog Int :=
+  { grid := [.scalar .equal [⟨"OPERNUM", 2, ⟨none, none, none, none, some 2, some 2⟩⟩],
+             .operateR [⟨"NTG", 2, "MULTX", "MULTZ", 3, 0, "OPERNUM"⟩]],
+    edit := [], props := [], regions := [], solution := [] }
+
+example : TablesOK opT := tablesOK_of_check opT (by decide +kernel)
+example : TablesOK sampleT := tablesOK_of_check sampleT (by decide +kernel)
+
+example :
+    (runProg .impl opD opT (initSt [true, true]) opP).map (fun t => t.dbls) =
+      some [("NTG", [⟨.validDefault, 1⟩, ⟨.validDefault, 3⟩]), ("MULTZ", [⟨.validDefault, 1⟩, ⟨.validDefault, 1⟩])] ∧
+    (runProg .impl opD opT (initSt [true, false]) opP).map (fun t => t.dbls) =
+      some [("NTG", [⟨.validDefault, 1⟩]), ("MULTZ", [⟨.validDefault, 1⟩])] := by
+  decide +kernel
+
+-- status machine / box carry-over instances
+example : StatusStep .uninit .validDefault ∧ StatusStep .validDefault .deckValue ∧ ¬ StatusStep .deckValue .uninit ∧
+    ¬ StatusStep .uninit .emptyDefault := by decide
+example : (runProg .impl sampleD sampleT (initSt sampleA) sampleP).isSome = true := by decide +kernel
+-- a boxed record, then an all-defaulted record (reuses that box), then a keyword (sees the section box again)
+example : boxTrack sampleD (Box.global sampleD)
+    ([.scalar .equal [⟨"PORO", 1, ⟨some 2, some 3, none, none, none, none⟩⟩, ⟨"PORO", 2, noBox⟩],
+      .box ⟨some 2, some 3, some 1, some 2, some 1, some 2⟩, .scalar .add [⟨"PORO", 1, noBox⟩], .endbox] : List (Kw Int)) =
+    Box.global sampleD ∧
+    Box.update sampleD sampleB noBox = some sampleB ∧
+    Box.update sampleD sampleB ⟨some 2, none, none, none, none, none⟩ = some ⟨1, 0, 0, 2, 2, 2⟩ := by decide
 
 end OpmVerif.Props.C12
